@@ -1,0 +1,176 @@
+//go:build verif
+
+package grpctunnel
+
+// Verification hooks, compiled only with the "verif" build tag. They add
+// observability and scheduling points for an external test harness and do not
+// change behaviour unless the harness installs a yield function.
+
+import (
+	"context"
+	"sort"
+	"sync"
+	"sync/atomic"
+
+	"github.com/jhump/grpctunnel/tunnelpb"
+)
+
+var verifYieldFn atomic.Pointer[func(string)]
+
+// VerifSetYield installs (or, with nil, removes) the function invoked at every
+// named yield point.
+func VerifSetYield(f func(point string)) {
+	if f == nil {
+		verifYieldFn.Store(nil)
+		return
+	}
+	verifYieldFn.Store(&f)
+}
+
+func verifYield(point string) {
+	if f := verifYieldFn.Load(); f != nil {
+		(*f)(point)
+	}
+}
+
+// VerifClientStreamIDs returns the ids in the channel's stream table and
+// whether the channel has been marked finished.
+func VerifClientStreamIDs(ch TunnelChannel) (ids []int64, finished bool, ok bool) {
+	c, ok := ch.(*tunnelChannel)
+	if !ok {
+		return nil, false, false
+	}
+	c.mu.RLock()
+	defer c.mu.RUnlock()
+	for id := range c.streams {
+		ids = append(ids, id)
+	}
+	sort.Slice(ids, func(i, j int) bool { return ids[i] < ids[j] })
+	return ids, c.finished, true
+}
+
+// VerifClientRevision reports the protocol revision a channel negotiated.
+func VerifClientRevision(ch TunnelChannel) (tunnelpb.ProtocolRevision, bool) {
+	c, ok := ch.(*tunnelChannel)
+	if !ok {
+		return 0, false
+	}
+	return c.useRevision, true
+}
+
+var (
+	verifServersMu sync.Mutex
+	verifServers   = map[*tunnelServer]struct{}{}
+)
+
+func verifServerStarted(s *tunnelServer) {
+	verifServersMu.Lock()
+	defer verifServersMu.Unlock()
+	verifServers[s] = struct{}{}
+}
+
+func verifServerEnded(s *tunnelServer) {
+	verifServersMu.Lock()
+	defer verifServersMu.Unlock()
+	delete(verifServers, s)
+}
+
+// VerifServerInfo describes one tunnel server whose serve loop is running.
+type VerifServerInfo struct {
+	// Ctx is the context of the carrier stream the server reads from.
+	Ctx       context.Context
+	StreamIDs []int64
+	LastSeen  int64
+}
+
+// VerifServers lists the tunnel servers whose serve loop has not returned.
+func VerifServers() []VerifServerInfo {
+	verifServersMu.Lock()
+	svrs := make([]*tunnelServer, 0, len(verifServers))
+	for s := range verifServers {
+		svrs = append(svrs, s)
+	}
+	verifServersMu.Unlock()
+	infos := make([]VerifServerInfo, 0, len(svrs))
+	for _, s := range svrs {
+		s.mu.RLock()
+		info := VerifServerInfo{Ctx: s.stream.Context(), LastSeen: s.lastSeen}
+		for id := range s.streams {
+			info.StreamIDs = append(info.StreamIDs, id)
+		}
+		s.mu.RUnlock()
+		sort.Slice(info.StreamIDs, func(i, j int) bool { return info.StreamIDs[i] < info.StreamIDs[j] })
+		infos = append(infos, info)
+	}
+	return infos
+}
+
+// VerifReverseRegistry returns the number of channels in the handler's global
+// reverse-tunnel list and in each per-key list.
+func VerifReverseRegistry(h *TunnelServiceHandler) (all int, perKey map[any]int) {
+	h.reverse.mu.Lock()
+	all = len(h.reverse.chans)
+	h.reverse.mu.Unlock()
+	perKey = map[any]int{}
+	h.mu.RLock()
+	lists := make(map[any]*reverseChannels, len(h.reverseByKey))
+	for k, rc := range h.reverseByKey {
+		lists[k] = rc
+	}
+	h.mu.RUnlock()
+	for k, rc := range lists {
+		rc.mu.Lock()
+		perKey[k] = len(rc.chans)
+		rc.mu.Unlock()
+	}
+	return all, perKey
+}
+
+// VerifSender exposes the private flow-control sender for isolated testing.
+type VerifSender interface {
+	Send(data []byte) error
+	UpdateWindow(add uint32)
+}
+
+// VerifReceiver exposes the private flow-control receiver (of byte chunks).
+type VerifReceiver interface {
+	Accept(chunk []byte) error
+	Close()
+	Cancel()
+	Dequeue() ([]byte, bool)
+}
+
+type verifSender struct{ s sender }
+
+func (v verifSender) Send(data []byte) error  { return v.s.send(data) }
+func (v verifSender) UpdateWindow(add uint32) { v.s.updateWindow(add) }
+
+type verifReceiver struct{ r receiver[[]byte] }
+
+func (v verifReceiver) Accept(chunk []byte) error { return v.r.accept(chunk) }
+func (v verifReceiver) Close()                    { v.r.close() }
+func (v verifReceiver) Cancel()                   { v.r.cancel() }
+func (v verifReceiver) Dequeue() ([]byte, bool)   { return v.r.dequeue() }
+
+// VerifNewSender wraps newSender.
+func VerifNewSender(ctx context.Context, window uint32, sendFunc func(data []byte, totalSize uint32, first bool) error) VerifSender {
+	return verifSender{newSender(ctx, window, sendFunc)}
+}
+
+// VerifNewReceiver wraps newReceiver for chunks measured by their length.
+func VerifNewReceiver(updateWindow func(uint32), window uint32) VerifReceiver {
+	return verifReceiver{newReceiver(func(b []byte) uint { return uint(len(b)) }, updateWindow, window)}
+}
+
+// VerifNewSenderWithoutFlowControl wraps newSenderWithoutFlowControl.
+func VerifNewSenderWithoutFlowControl(sendFunc func(data []byte, totalSize uint32, first bool) error) VerifSender {
+	return verifSender{newSenderWithoutFlowControl(sendFunc)}
+}
+
+// VerifNewReceiverWithoutFlowControl wraps newReceiverWithoutFlowControl.
+func VerifNewReceiverWithoutFlowControl(ctx context.Context) VerifReceiver {
+	return verifReceiver{newReceiverWithoutFlowControl[[]byte](ctx)}
+}
+
+// VerifConstants reports the compiled-in window and chunk sizes.
+func VerifConstants() (window, chunk uint32) { return initialWindowSize, chunkMax }
